@@ -103,7 +103,7 @@ struct Source {
 impl Source {
     fn new(c: &Case) -> Source {
         let head = match c.scenario.as_str() {
-            "head-line" => b"GET /x HTTP/1.1\r\nHost: t\r\nX-Endless: ".to_vec(),
+            "head-line" | "head-exact" => b"GET /x HTTP/1.1\r\nHost: t\r\nX-Endless: ".to_vec(),
             "head-many" => b"GET /x HTTP/1.1\r\nHost: t\r\n".to_vec(),
             "request-line" => b"GET /".to_vec(),
             "body" => {
@@ -125,6 +125,30 @@ impl Source {
         }
         match self.scenario.as_str() {
             "response" => None,
+            "pipeline-post" => {
+                if self.k >= self.load {
+                    return None;
+                }
+                // every segment ends inside a request body: [rest of previous body] [whole
+                // requests...] [head + first half of a body]
+                let body = b"0123456789";
+                let mut v = Vec::with_capacity(SEG);
+                if self.k > 0 {
+                    v.extend_from_slice(&body[5..]);
+                }
+                loop {
+                    let head = format!("POST /p{} HTTP/1.1\r\nHost: t\r\nContent-Length: 10\r\n\r\n", self.k);
+                    self.k += 1;
+                    v.extend_from_slice(head.as_bytes());
+                    if v.len() + 80 >= SEG || self.k >= self.load {
+                        v.extend_from_slice(&body[..5]);
+                        break;
+                    }
+                    v.extend_from_slice(body);
+                }
+                self.sent += v.len();
+                Some(v)
+            }
             "pipeline" => {
                 if self.k >= self.load {
                     return None;
@@ -140,6 +164,13 @@ impl Source {
             _ => {
                 if self.sent >= self.load + self.head.len() {
                     return None;
+                }
+                if self.scenario == "head-exact" {
+                    // fill up to exactly `load` bytes in total, in pieces that end on the limit
+                    let left = self.load + self.head.len() - self.sent;
+                    let n = left.min(SEG);
+                    self.sent += n;
+                    return Some(vec![b'a'; n]);
                 }
                 let v = match self.scenario.as_str() {
                     "head-many" => {
@@ -197,7 +228,7 @@ pub fn measure(c: &Case) -> Meas {
                     prog.pre_gate = Some(0);
                 }
             }
-            "pipeline" => {
+            "pipeline" | "pipeline-post" => {
                 prog.post_gate = Some(0);
             }
             "response" => {
@@ -280,8 +311,8 @@ pub fn measure(c: &Case) -> Meas {
             } else {
                 idle_steps = 0;
             }
-            let exhausted = io.pending_in() == 0 && src.scenario != "response" && src.sent >= src.load + src.head.len() && src.scenario != "pipeline";
-            let exhausted = exhausted || (src.scenario == "pipeline" && src.k >= src.load && io.pending_in() == 0);
+            let exhausted = io.pending_in() == 0 && src.scenario != "response" && src.sent >= src.load + src.head.len() && !src.scenario.starts_with("pipeline");
+            let exhausted = exhausted || (src.scenario.starts_with("pipeline") && src.k >= src.load && io.pending_in() == 0);
             if c.scenario == "response" {
                 if c.credit == "zero" && idle_steps >= 3 {
                     break;
@@ -322,6 +353,17 @@ fn judge(c: &Case, m: &Meas, small: Option<&Meas>) -> Vec<Verdict> {
     let small = small.filter(|s| c.scenario == "response" || s.server_stopped_reading);
     let sig = format!("{} {}", c.scenario, c.consumer);
     match c.scenario.as_str() {
+        "head-exact" => {
+            // a head that is still incomplete when the unparsed input reaches the ceiling exactly
+            // is refused as well (and the connection ends), it must not sit there
+            if m.offered != READ_BUF_LIMIT {
+                // (the reduced-load companion run offers less than the ceiling: nothing to demand)
+            } else if !m.statuses.contains(&431) {
+                v.push(Verdict { class: "oversized-head-not-refused", sig: sig.clone(), detail: format!("exactly {} bytes of incomplete head offered ({} taken): responses {:?}, expected 431", m.offered, m.taken, m.statuses) });
+            } else if !m.done {
+                v.push(Verdict { class: "oversized-head-connection-kept", sig: sig.clone(), detail: "connection still open after the 431".into() });
+            }
+        }
         "head-line" | "head-many" | "request-line" => {
             // unparsed input is limited: refused, and the server stops taking bytes
             let ceiling = 2 * READ_BUF_LIMIT + 2 * SEG;
@@ -358,7 +400,7 @@ fn judge(c: &Case, m: &Meas, small: Option<&Meas>) -> Vec<Verdict> {
                 }
             }
         }
-        "pipeline" => {
+        "pipeline" | "pipeline-post" => {
             let ceiling = 2 * READ_BUF_LIMIT + 2 * SEG;
             if m.taken > ceiling {
                 v.push(Verdict { class: "pipelined-input-unbounded", sig: sig.clone(), detail: format!("{} bytes of pipelined requests taken while the first handler is pending (offered {}), ceiling {}", m.taken, m.offered, ceiling) });
@@ -395,7 +437,7 @@ fn judge(c: &Case, m: &Meas, small: Option<&Meas>) -> Vec<Verdict> {
     let heap_ceiling = match c.scenario.as_str() {
         "response" => 4 * (c.write_buf.unwrap_or(32_768) + c.chunk) + (1 << 20),
         // queued request objects: bounded by what fits the read buffer; each is a few hundred bytes
-        "pipeline" => 24 << 20,
+        "pipeline" | "pipeline-post" => 24 << 20,
         _ => 2 << 20,
     };
     if m.heap_peak_delta > heap_ceiling {
@@ -484,7 +526,11 @@ fn grid(thorough: bool) -> Vec<Case> {
     }
     for load in if thorough { vec![20_000usize, 200_000] } else { vec![40_000] } {
         v.push(Case { scenario: "pipeline".into(), load, ..base.clone() });
+        v.push(Case { scenario: "pipeline-post".into(), load, ..base.clone() });
     }
+    // exactly the unparsed-input ceiling of incomplete head, then silence
+    // (37 = length of the head prefix: the total offered is exactly READ_BUF_LIMIT)
+    v.push(Case { scenario: "head-exact".into(), load: READ_BUF_LIMIT - 37, ..base.clone() });
     for wb in [Some(1usize), Some(512), Some(4096), None, Some(1 << 20)] {
         for chunk in [1usize, 1000, 70_000] {
             for credit in ["zero", "trickle"] {
